@@ -736,3 +736,67 @@ Lemma spelling_example_lemma :
   pct_encode [None; Some (false, false); Some (false, false)] (B "/s.private") = B "/%73%2eprivate" /\
   mask_ok [None; None; Some (true, true)] (B "/s.private") = true.
 Proof. vm_compute. repeat split; reflexivity. Qed.
+
+(** ---------------------------------------------------------------------------
+    "the answer is the host's 404": what the layer below the cache returns for a hidden / private
+    file, and for an [allow-ips] file when the address is not listed. *)
+Section NotFound.
+  Variable fs : bytes -> option bytes.
+  Variable errpage : N -> bytes.
+  Notation stepv := (step true errpage).
+  Definition is404 (st : pst) : Prop := ps_status st = 404 /\ ps_body st = errpage 404.
+
+  Lemma is404_hide st : is404 (do_hide errpage st).
+  Proof. split; reflexivity. Qed.
+
+  Lemma is404_step addr st e : is404 st -> is404 (stepv addr st e).
+  Proof.
+    intros [H1 H2]. destruct e as [name args]. unfold step.
+    destruct (beq name N_HIDE); [apply is404_hide|].
+    destruct (beq name N_ALLOW).
+    { unfold do_allow. destruct (existsb (arg_matches addr) args); split; cbn; auto. }
+    destruct (beq name N_CACHE).
+    { unfold do_cache. destruct (cache_parse args None None). split; cbn; auto. }
+    destruct (beq name N_DOWNLOAD); split; cbn; auto.
+  Qed.
+  Lemma is404_fold addr es st : is404 st -> is404 (fold_left (stepv addr) es st).
+  Proof. revert st; induction es as [|e es IH]; intros st H; cbn [fold_left]; [exact H|]. apply IH, is404_step, H. Qed.
+
+  Lemma fold_hide_404 addr es st : has_name N_HIDE es = true -> is404 (fold_left (stepv addr) es st).
+  Proof.
+    revert st; induction es as [|[name args] es IH]; intros st H; cbn [fold_left has_name existsb fst] in *; [discriminate|].
+    unfold has_name in IH. apply orb_true_iff in H as [H|H]; [|apply IH, H].
+    apply is404_fold. unfold step. rewrite H. apply is404_hide.
+  Qed.
+  Lemma fold_unlisted_404 addr es st : listed addr es = false -> is404 (fold_left (stepv addr) es st).
+  Proof.
+    revert st; induction es as [|[name args] es IH]; intros st H; cbn [fold_left listed forallb fst snd] in *; [discriminate|].
+    unfold listed in IH. apply andb_false_iff in H as [H|H]; [|apply IH, H].
+    apply is404_fold. unfold step.
+    destruct (beq name N_HIDE); [apply is404_hide|].
+    destruct (beq name N_ALLOW); [|discriminate].
+    unfold do_allow. rewrite H. split; reflexivity.
+  Qed.
+
+  Lemma guarded_answer_is_404_lemma r t c :
+    served_file (rq_path r) = Ok (Some t) -> fs t = Some c -> get_or_head (rq_method r) = true ->
+    (exists parsed, PresentLine.present_parse c = Ok parsed) ->
+    is_hidden t c = true \/ listed (rq_addr r) (entries_of c) = false ->
+    f_status (layer_b true true fs errpage r true) = 404 /\
+    f_body (layer_b true true fs errpage r true) = errpage 404.
+  Proof.
+    intros Es Ef Em [parsed Ep] H.
+    pose proof (private_hit_served _ _ Es) as Hp.
+    unfold layer_b, base. cbn [negb]. rewrite Es, Em, Ef. cbn [obind].
+    unfold present. cbn [ps_body file_pst]. rewrite Ep.
+    unfold is_hidden, entries_of in H. rewrite Ep, <- Hp in H.
+    assert (G : forall st : pst, is404 st -> f_status (fat_of st) = 404 /\ f_body (fat_of st) = errpage 404)
+      by (intros st [A B0]; split; assumption).
+    apply G.
+    destruct (private_hit true (rq_path r)).
+    { apply is404_fold, is404_hide. }
+    cbn [orb] in H. destruct parsed as [p|].
+    - destruct H as [H|H]; [apply fold_hide_404, H|apply fold_unlisted_404, H].
+    - destruct H as [H|H]; cbn in H; discriminate.
+  Qed.
+End NotFound.
